@@ -146,7 +146,13 @@ def rule_S(prog, chk):
                     if o is not None and o["k"] == "MemberExpr" and o["n"] == fld and short in ("clear", "resize", "assign"):
                         return True
                     if (o is None or o["k"] == "This") and short in ("_clear", "clear", "_reset", "reset", "_init", "init", "delAllCovas",
-                                                                       "delAllDrifts", "_create", "internalDirectionResize"):
+                                                                       "delAllDrifts", "_create"):
+                        return True
+                    # Vario::internalDirectionResize re-dimensions the result arrays only (read in Vario.cpp): it empties nothing else
+                    if (o is None or o["k"] == "This") and short == "internalDirectionResize" and fld in ("_sw", "_gg", "_hh", "_utilize"):
+                        return True
+                    # a member object emptied through its own method (`_varioparam.delAllDirs()`)
+                    if o is not None and o["k"] == "MemberExpr" and o["n"] == fld and short.startswith("delAll"):
                         return True
                 if x["k"] in ("Assign", "OpCall") and x.get("op") == "=" and x["c"][0] is not None and x["c"][0]["k"] == "MemberExpr" and x["c"][0]["n"] == fld:
                     return True
@@ -388,6 +394,137 @@ def rule_T(prog, chk):
     chk.floor("T", n, 100)
 
 
+def rule_X(prog, chk):
+    """X - a matrix comes back in the orientation it was written in.  Inside two nested loops (outer o, inner i) the records of a matrix are
+    addressed either in running order (a counter incremented once per record, or `o * n + i`) or transposed (`i * n + o`).  Writer and reader
+    of a class must use the same orientation for the records of a doubly nested loop: the rotation matrix of a moving neighbourhood read
+    with `[jdim * ndim + idim]` comes back as the inverse rotation."""
+    def strip(e):
+        while e is not None and e["k"] in ("Cast", "Paren") and e.get("c"):
+            e = e["c"][0]
+        return e
+
+    def loopvar(L):
+        for z in walk(L["c"][0]) if L["c"][0] is not None else []:
+            if z["k"] == "VarDecl":
+                return z["d"]
+        c = strip(L["c"][1]) if L["c"][1] is not None else None
+        for z in walk(c) if c is not None else []:
+            if z["k"] == "BinOp" and z.get("op") in ("<", "<=") and strip(z["c"][0]) is not None and strip(z["c"][0])["k"] == "DeclRefExpr":
+                return strip(z["c"][0])["d"]
+        return None
+
+    def orient(idx, do, di):
+        idx = strip(idx)
+        if idx is None:
+            return None
+        if idx["k"] == "UnOp" and idx.get("op") in ("post++", "++"):
+            return "running"
+        if idx["k"] == "DeclRefExpr":
+            return "running" if idx.get("d") not in (do, di) else None
+        if idx["k"] == "BinOp" and idx.get("op") == "+":
+            a, b = strip(idx["c"][0]), strip(idx["c"][1])
+            mul, add = (a, b) if a is not None and a["k"] == "BinOp" and a.get("op") == "*" else (b, a)
+            if mul is None or mul["k"] != "BinOp" or mul.get("op") != "*" or add is None or add["k"] != "DeclRefExpr":
+                return None
+            mv = [strip(z) for z in mul["c"]]
+            mvd = [z.get("d") for z in mv if z is not None and z["k"] == "DeclRefExpr"]
+            if do in mvd and add.get("d") == di:
+                return "running"
+            if di in mvd and add.get("d") == do:
+                return "transposed"
+        return None
+
+    def sites(f, prim):
+        out = []
+        for Lo in f.walk():
+            if Lo["k"] != "For" or len(Lo["c"]) < 4 or Lo["c"][3] is None:
+                continue
+            do = loopvar(Lo)
+            for Li in walk(Lo["c"][3]):
+                if Li["k"] != "For" or len(Li["c"]) < 4 or Li["c"][3] is None:
+                    continue
+                di = loopvar(Li)
+                if do is None or di is None or do == di:
+                    continue
+                for x in walk(Li["c"][3]):
+                    if x["k"] in ("Call", "MCall") and (x.get("callee") or "").split("::")[-1].split("<")[0] == prim:
+                        a = call_args(x)
+                        if len(a) < 3 or a[2] is None:
+                            continue
+                        v = strip(a[2])
+                        idx = None
+                        if v["k"] in ("Index", "OpCall") and len(v.get("c") or []) >= 2:
+                            idx = v["c"][-1]
+                        elif v["k"] in ("MCall", "Call") and len(call_args(v)) == 1:
+                            idx = call_args(v)[0]
+                        elif v["k"] in ("MCall", "Call") and len(call_args(v)) == 2:
+                            # getValue(o, i) / getValue(i, o)
+                            p0, p1 = [strip(z) for z in call_args(v)]
+                            # (row, column) addressing: comparable with another (row, column) addressing only - how a FLAT vector maps to rows and
+                            # columns is a convention of the class that receives it (Model stores its rotation by column on purpose)
+                            if p0 is not None and p1 is not None and p0["k"] == p1["k"] == "DeclRefExpr":
+                                o_ = "rc-running" if (p0.get("d"), p1.get("d")) == (do, di) else "rc-transposed" if (p0.get("d"), p1.get("d")) == (di, do) else None
+                                if o_:
+                                    out.append((o_, x))
+                            continue
+                        o_ = orient(idx, do, di)
+                        if o_:
+                            out.append((o_, x))
+        return out
+    n = 0
+    for c, w, r in pairs(prog):
+        ws, rs = sites(w, "_recordWrite"), sites(r, "_recordRead")
+        if not ws or not rs:
+            continue
+        for k, (orr, xr) in enumerate(rs):
+            if k >= len(ws):
+                break
+            oww = ws[k][0]
+            if oww.startswith("rc-") != orr.startswith("rc-"):
+                continue
+            n += 1
+            ok = oww == orr
+            chk.analysed(r)
+            chk.ob("X", "%s: the records of the doubly nested loop #%d are read in the orientation they were written in" % (c, k + 1), r.loc(xr), ok,
+                   detail=None if ok else "the writer addresses the matrix in %s order, the reader in %s order: the reloaded matrix is the transpose of "
+                   "the one saved" % (oww, orr), key="X|%s|%d" % (c, k + 1))
+    chk.floor("X", n, 1)
+
+
+
+def rule_Y(prog, chk):
+    """Y - a value the reader took from the file is not replaced by a default.  When a reader has filled a local `angles` and calls a function
+    one of whose parameters is named `angles`, that parameter receives an argument: left to its default (`gridDefine(nx, dx, x0)`), the rotation
+    read from the file is dropped and the grid comes back unrotated."""
+    n = 0
+    for c, w, r in pairs(prog):
+        names = {}
+        for x in r.walk():
+            if x["k"] in ("Call", "MCall") and (x.get("callee") or "").split("::")[-1].split("<")[0] in ("_recordRead", "_recordReadVec", "_recordReadVecInPlace", "_tableRead"):
+                for a in call_args(x)[2:]:
+                    for z in walk(a) if a is not None else []:
+                        if z["k"] == "DeclRefExpr" and z.get("dk") == "var":
+                            names[z["n"]] = z["d"]
+        if not names:
+            continue
+        for cl in r.calls():
+            cal = [g for g in prog.fns(cl.get("callee") or "") if len(g.params) == len(call_args(cl))]
+            if not cal:
+                continue
+            for k, a in enumerate(call_args(cl)):
+                pn = cal[0].params[k]["n"]
+                if pn not in names:
+                    continue
+                n += 1
+                ok = not (a is not None and a["k"] == "DefaultArg")
+                chk.analysed(r)
+                chk.ob("Y", "%s::_deserialize: `%s` receives the `%s` read from the file" % (c, (cl.get("callee") or "?"), pn), r.loc(cl), ok,
+                       detail=None if ok else "the reader filled `%s` from the file but calls `%s` without it: the parameter keeps its default and the value of "
+                       "the file is lost" % (pn, show(cl)[:50]), key="Y|%s|%s|%s" % (c, cl.get("callee"), pn))
+    chk.floor("Y", n, 25)
+
+
 def rule_B(prog, chk):
     """B - sibling builders establish the same state.  The methods `buildFromX` / `resetFromX` / `initFromX` of one class are alternative
     ways of putting the object in its built state (a reader picks the one that matches what the file holds): a state member that all
@@ -542,6 +679,8 @@ def main(tier):
     rule_K(prog, chk)
     rule_M(prog, chk)
     rule_T(prog, chk)
+    rule_X(prog, chk)
+    rule_Y(prog, chk)
     rule_B(oprog, chk)
     rule_D(prog, chk)
     return chk.finish()
